@@ -187,7 +187,7 @@ def execute(spec, schedule=None):
 
                 @property
                 def shouldStop(self):
-                    return self._stopped or self.decorated.shouldStop
+                    return self._stopped
 
                 def stop(self):
                     self._stopped = True
